@@ -89,7 +89,8 @@ theorem fifo_service (q : Quirks) : FifoService q :=
     off, is the tree before the first blocking repair; the EXEC repair has landed since: `refuseBlockingInTx`.) -/
 def sourceQuirks : Quirks :=
   ⟨Gen.Blocking.notifyPerElement, Gen.Blocking.wakeAtPush, Gen.Blocking.unregisterAllOnServe,
-   Gen.Blocking.refuseBlockingInTx, Gen.Blocking.dedupKeys⟩
+   Gen.Blocking.refuseBlockingInTx, Gen.Blocking.dedupKeys, Gen.Blocking.drainAll,
+   Gen.Blocking.noticeBlockedHangup, Gen.Blocking.deferBatchWhenBlocked⟩
 
 /-- The model drains as many wake-ups per loop iteration as the source says. -/
 theorem wakeBatch_matches_source : Gen.Blocking.wakeBatch = wakeBatch := by decide
@@ -178,8 +179,17 @@ def wDisconnectBlocked : List Event :=
 
 theorem conservation_fails_disconnect_while_blocked : (run Quirks.code wDisconnectBlocked).lost = [(ka, [1])] := by decide
 
-/-- none of the local repairs reaches this one (it needs the server to notice the hang-up of a blocked peer) -/
-theorem conservation_fails_disconnect_even_fixed : (run Quirks.fixed wDisconnectBlocked).lost = [(ka, [1])] := by decide
+/-- once blocked connections are probed for end-of-file (`noticeBlockedHangup`) the hang-up is noticed… -/
+example : (run { Quirks.code with noticeBlockedHangup := true } wDisconnectBlocked).lost = [] := by decide
+
+/-- …but an element pushed between the hang-up and the moment the server looks is lost under every quirk setting:
+    this window cannot be closed by the server (the peer is already gone), which is why `AllowedFixed` keeps
+    excluding a hang-up while blocked. -/
+def wDisconnectInFlight : List Event :=
+  [ .conn 3 0 [.bpop .left [ka] 0], .hangup 3, .conn 2 0 [.push .right ka [[1]]], .wakeups ]
+
+theorem conservation_fails_disconnect_in_flight_even_fixed :
+    (run Quirks.fixed wDisconnectInFlight).lost = [(ka, [1])] := by decide
 
 /-- a second blocking pop pipelined behind one that blocked is executed at once: two registrations, one
     blocked state; the first service leaves the other registration behind, which swallows the next element. -/
@@ -252,10 +262,10 @@ example : outOf (run Quirks.fixed wOneWakePerPush) 4 = [.pair ka [2]] ∧ (run Q
 example : outOf (run Quirks.fixed wPipelinedPushPop) 3 = [.pair ka [1]] ∧ outOf (run Quirks.fixed wPipelinedPushPop) 2 = [.int 1, .nil, .int 1] := by decide
 example : ((step Quirks.fixed (run Quirks.fixed wLeftoverDeadline) (.timeouts 260)).conns 3).blocked = some ⟨[ka], none, .left⟩ := by decide
 /-- each repair alone flips its own witness -/
-example : (run ⟨false, false, true, false, false⟩ wMultiKeyLeftover).lost = [] := by decide
-example : (run ⟨false, false, false, true, false⟩ wExecConn0).lost = [] := by decide
-example : outOf (run ⟨true, false, false, false, false⟩ wOneWakePerPush) 4 = [.pair ka [2]] := by decide
-example : outOf (run ⟨false, true, false, false, false⟩ wPipelinedPushPop) 3 = [.pair ka [1]] := by decide
+example : (run { Quirks.code with unregisterAllOnServe := true } wMultiKeyLeftover).lost = [] := by decide
+example : (run { Quirks.code with refuseBlockingInTx := true } wExecConn0).lost = [] := by decide
+example : outOf (run { Quirks.code with notifyPerElement := true } wOneWakePerPush) 4 = [.pair ka [2]] := by decide
+example : outOf (run { Quirks.code with wakeAtPush := true } wPipelinedPushPop) 3 = [.pair ka [1]] := by decide
 
 /-- the same key named twice: two registrations of one client; with one notify per element both are woken by a
     two-element push, the second wake-up finds the client served and its element is popped for nobody —
@@ -263,7 +273,7 @@ example : outOf (run ⟨false, true, false, false, false⟩ wPipelinedPushPop) 3
 def wDuplicateKey : List Event :=
   [ .conn 3 0 [.bpop .right [ka, ka] 0], .conn 2 0 [.multi, .push .left ka [[1], [2]], .exec], .wakeups ]
 
-example : (run ⟨true, true, true, true, false⟩ wDuplicateKey).lost = [(ka, [2])] := by decide
+example : (run { Quirks.fixed with dedupKeys := false } wDuplicateKey).lost = [(ka, [2])] := by decide
 example : (run Quirks.fixed wDuplicateKey).lost = [] ∧ (run Quirks.fixed wDuplicateKey).store = [(ka, [2])] := by decide
 
 end Ferrous.C13
